@@ -33,7 +33,7 @@ type c10Walk struct {
 var c10Ops = []string{"unmatch", "rematch", "delete-background", "delete-foreground", "delete-orphan", "strip-finalizer", "toggle-finalize-hook", "edit-spec", "gc", "fault-next-parent-write", "resync"}
 
 func genC10(rng *rand.Rand) c10Walk {
-	w := c10Walk{Finalize: []string{"step", "all", "never"}[rng.Intn(3)], HookAtT0: rng.Intn(4) != 0, Rolling: rng.Intn(4) == 0, Kids: 1 + rng.Intn(3)}
+	w := c10Walk{Finalize: eagerTurn([]string{"step", "all", "never"}[rng.Intn(3)]), HookAtT0: rng.Intn(4) != 0, Rolling: rng.Intn(4) == 0, Kids: 1 + rng.Intn(3)}
 	n := 4 + rng.Intn(8)
 	for i := 0; i < n; i++ {
 		w.Steps = append(w.Steps, c10Step{Op: c10Ops[rng.Intn(len(c10Ops))], Arg: []string{"409", "500", "422"}[rng.Intn(3)]})
@@ -226,6 +226,11 @@ func runC10(t *testing.T, id string, walk c10Walk) {
 			}
 			if q.Mutating() && q.GVR != pgvr && q.GVR.Resource == "widgets" {
 				childMut++
+				// (6b) ... and once this very sync has taken the finalizer off a parent that is pending
+				// deletion, that parent "has already lost the finalizer": no child is touched after that
+				if sim.IsDeleting(cur) && !hasFin(cur, finName) && hasOurs {
+					viol("child-written-after-finalizer-removal", "the finalizer had just been removed from the parent pending deletion, yet a child was created, updated or deleted afterwards in the same sync: "+q.String(), sr)
+				}
 				if q.Verb == "create" && q.OK() && hookOn && !firstCreateChecked {
 					firstCreateChecked = true
 					if !hasFin(cur, finName) {
@@ -346,4 +351,16 @@ func runC10(t *testing.T, id string, walk c10Walk) {
 	rep.Counter("C10", "finalizer_adds", int64(finalizerAdds))
 	rep.Counter("C10", "finalizer_removals", int64(finalizerRemovals))
 	rep.Case("C10", id, finalizeCalls > 0 || finalizerRemovals > 0 || finalizerAdds > 0, sim.Hash(walk), map[string]interface{}{"walk": walk, "syncs": judged, "finalizeCalls": finalizeCalls})
+}
+
+
+// eagerTurn turns every fourth pick of the finalize program into the "eager" one (finalized: true
+// at once, whatever is still there) without changing the number of draws from the walk generator.
+var eagerCounter int64
+
+func eagerTurn(f string) string {
+	if atomic.AddInt64(&eagerCounter, 1)%4 == 0 {
+		return "eager"
+	}
+	return f
 }
